@@ -326,71 +326,9 @@ def forbidden_recog(repo, func, argname=None):
 
 
 def r2(ctx):
-    repo = ctx.repo
-    f = ctx.fn(repo.func(MSG + ".Message.parse_headers"))
-    g = f.cfg
-    ret_names = [n.ast.value.id for n in g.stmts(ast.Return) if isinstance(n.ast.value, ast.Name)]
-    ctx.need(ret_names, "C01.R2: parse_headers does not return a plain list variable")
-    H = ret_names[0]
-    appends = [c for c in method_calls(f, "append") if isinstance(c.func.value, ast.Name) and c.func.value.id == H]
-    ctx.need(appends, "C01.R2: no %s.append(..) in parse_headers" % H)
-    outer = None
-    for c in appends:
-        w = f.module.enclosing(c, ast.While)
-        outer = w if outer is None else outer
-    ctx.need(outer is not None, "C01.R2: header loop not recognised")
-    conts = [n for n in g.stmts(ast.Continue) if f.module.enclosing(n.ast, (ast.While, ast.For)) is outer]
-    targets = [n for c in appends for n in nodes_with(f, c)] + conts
-    ctx.count("accept/drop sites", len(targets))
-    # names of the (name, value) pair that is appended
-    tup = appends[0].args[0] if appends[0].args and isinstance(appends[0].args[0], ast.Tuple) and len(appends[0].args[0].elts) == 2 else None
-    ctx.need(tup is not None and all(isinstance(x, ast.Name) for x in tup.elts), "C01.R2: appended (name, value) pair not recognised")
-    NAME, VALUE = tup.elts[0].id, tup.elts[1].id
-    checks = [
-        ("colon", _colon_recog_weak(f), "a line without ':' (or with an empty name) can be accepted", ()),
-        ("token-name", token_recog(repo, f, NAME), "a field name that is not an RFC 9110 token (incl. whitespace before the colon) can be accepted", kills_of(f, NAME)),
-        ("no-NUL-CR-LF", forbidden_recog(repo, f, VALUE), "a field value containing NUL, CR or LF can be accepted", ()),
-    ]
-    guard_tests = []
-    for nm, recog, why, kl in checks:
-        for t in targets:
-            p, hits = guard_check(f, [t], recog, kills=[k for k in kl if k is not t])
-            guard_tests += [h[0] for h in hits]
-            ctx.check("C01.R2", p is None, key(f, "%s|%s" % (nm, "append" if t.kind == "stmt" and not isinstance(t.ast, ast.Continue) else "continue")),
-                      site(f, t), why + " (witness path avoids the check)", "guarded by %s check (%d recognised)" % (nm, len(hits)), path=p and g.fmt_path(p))
-    # guards must not depend on from_trailer
-    for t in set(guard_tests):
-        dep = [a for a in f.module.ancestors(t.ast) if isinstance(a, ast.If) and "from_trailer" in names(a.test)]
-        ctx.check("C01.R2", not dep, key(f, "trailer-independent|" + t.text), site(f, t),
-                  "header grammar check is conditional on from_trailer: trailers would escape it", "applies to trailers too")
-    # obsolete folding
-    fold_loops = [w for w in walk_own(f.node) if isinstance(w, ast.While) and w is not outer and
-                  any(isinstance(c, ast.Call) and isinstance(c.func, ast.Attribute) and c.func.attr == "startswith" for c in ast.walk(w.test))]
-    ctx.need(fold_loops, "C01.R2: continuation-line loop not recognised")
-    for w in fold_loops:
-        pops = [n for c in method_calls(f, ("pop", "popleft")) if f.module.enclosing(c, ast.While) is w for n in nodes_with(f, c)]
-        ctx.need(pops, "C01.R2: continuation-line loop consumes no line")
-
-        def recog(e):
-            if cfg_attr(e) == "permit_obsolete_folding":
-                return -1
-            return None
-        p, hits = guard_check(f, pops, recog)
-        ctx.check("C01.R2", p is None, key(f, "obs-fold"), site(f, pops[0]),
-                  "a continuation (obs-fold) line is consumed without cfg.permit_obsolete_folding being set",
-                  "obs-fold consumed only under permit_obsolete_folding", path=p and g.fmt_path(p))
-        # and the loop test really looks for SP / HTAB at line start
-        sw = [c for c in ast.walk(w.test) if isinstance(c, ast.Call) and isinstance(c.func, ast.Attribute) and c.func.attr == "startswith"][0]
-        pref = const(sw.args[0], NO) if sw.args else NO
-        pref = set(pref) if isinstance(pref, (tuple, list)) else {pref}
-        ctx.check("C01.R2", pref == {" ", "\t"}, key(f, "obs-fold-prefix"), site(f, sw),
-                  "continuation lines are recognised by %r, RFC 9112 5.2 says SP / HTAB" % (sorted(map(str, pref)),), "SP/HTAB prefix")
-    # header block is split on CRLF only
-    splits = [c for c in method_calls(f, ("split", "splitlines")) if any(isinstance(x, ast.Name) and x.id == f.params[1] for x in ast.walk(c.func.value))]
-    ctx.need(splits, "C01.R2: header block split not found")
-    for c in splits:
-        ctx.check("C01.R2", c.func.attr == "split" and c.args and const(c.args[0], NO) == b"\r\n", key(f, "line-split"), site(f, c),
-                  "header block is not split on CRLF only (bare LF / other separators would create ghost lines)", "split on CRLF")
+    """header-field grammar, evaluated: Message.parse_headers against the independent reading of RFC 9112 5 for every
+    byte value in every position of a field line (and as a trailer section)"""
+    headers_table(ctx, "C01.R2", "grammar")
 
 
 # ------------------------------------------------------------------------------- R3
@@ -511,6 +449,153 @@ def hex_recog(repo, func, name):
 
 def rx_pattern(rx):
     return rx.pattern
+
+
+def headers_oracle(data, cfg):
+    """what RFC 9112 5 + gunicorn's documented switches say about a header block: 'reject', or (accepted (NAME, value)
+    list, resulting scheme).  Written from the specification, independent of the code under analysis."""
+    lines = data.decode("latin-1").split("\r\n")
+    i = 0
+    headers = []
+    count = 0
+    scheme = cfg.get("scheme", "http")
+    scheme_set = False
+    peer = cfg.get("peer", ("127.0.0.1", 5))
+    allow = cfg.get("forwarded_allow_ips", ("127.0.0.1",))
+    trusted = (not cfg.get("from_trailer", False)) and ("*" in allow or not isinstance(peer, tuple) or peer[0] in allow)
+    secure = cfg.get("secure_scheme_headers", {}) if trusted else {}
+    fwd = cfg.get("forwarder_headers", ()) if trusted else ()
+    lim_n = cfg.get("limit_request_fields", 100)
+    lim_s = cfg.get("limit_request_field_size", 8190)
+    while i < len(lines):
+        if count >= lim_n:
+            return "reject"
+        count += 1
+        curr = lines[i]
+        i += 1
+        length = len(curr) + 2
+        if curr.find(":") <= 0:
+            return "reject"
+        name, value = curr.split(":", 1)
+        if cfg.get("strip_header_spaces", False):
+            name = name.rstrip(" \t")
+        if not name or any(ord(c) not in spec.TCHAR for c in name):
+            return "reject"
+        name = name.upper()
+        vals = [value.strip(" \t")]
+        while i < len(lines) and lines[i][:1] in (" ", "\t") and lines[i][:1] != "":
+            if not cfg.get("permit_obsolete_folding", False):
+                return "reject"
+            length += len(lines[i]) + 2
+            if lim_s > 0 and length > lim_s:
+                return "reject"
+            vals.append(lines[i].strip(" \t"))
+            i += 1
+        value = " ".join(vals)
+        if any(c in value for c in "\x00\r\n"):
+            return "reject"
+        if lim_s > 0 and length > lim_s:
+            return "reject"
+        if name in secure:
+            s_ = "https" if value == secure[name] else "http"
+            if scheme_set:
+                if s_ != scheme:
+                    return "reject"
+            else:
+                scheme_set = True
+                scheme = s_
+        if "_" in name:
+            if name in fwd or "*" in fwd:
+                pass
+            elif cfg.get("header_map", "drop") == "dangerous":
+                pass
+            elif cfg.get("header_map", "drop") == "drop":
+                continue
+            else:
+                return "reject"
+        headers.append((name, value))
+    return (tuple(headers), scheme)
+
+
+def headers_table(ctx, rid, part):
+    """evaluated: Message.parse_headers on concrete header blocks under concrete parser settings and peers, compared
+    with headers_oracle.  `part` selects the family of cases a rule is about: 'grammar' (every byte value inside the
+    name, before the colon and inside the value; folding; NUL/CR/LF), 'switches' (the documented-unsafe relaxations only
+    under their switch), 'trust' (scheme / forwarder headers only from allowed peers, conflicts), 'limits' (field count
+    and field size incl. folded and dropped fields)"""
+    repo = ctx.repo
+    f = ctx.fn(repo.func(MSG + ".Message.parse_headers"))
+    g = f.cfg
+    DATA = f.params[1]
+    FT = f.params[2] if len(f.params) > 2 else None
+    base = {"forwarded_allow_ips": ("127.0.0.1",), "secure_scheme_headers": {"X-FORWARDED-PROTO": "https", "X-FORWARDED-SSL": "on"}, "forwarder_headers": ("SCRIPT_NAME", "PATH_INFO"),
+            "strip_header_spaces": False, "permit_obsolete_folding": False, "header_map": "drop", "limit_request_fields": 100, "limit_request_field_size": 8190,
+            "peer": ("127.0.0.1", 5), "scheme": "http", "from_trailer": False}
+    cases = []        # (data, overrides)
+    if part == "grammar":
+        blocks = [b"Host: x", b"Host: x\r\nX-A:  b \t", b"A:b", b"A:", b"A: ", b"A", b": v", b":v", b"A :v", b"A\t: v", b" A: v", b"A: v\r\nB", b"A: v\r\n\r\nB: w", b"A: v\r\n",
+                  b"A: b\r\n c", b"A: b\r\n\tc", b"A: a:b:c", b"A: \xe9", b"\xe9: v", b"A: v\r\nA: w", b"a: v\r\nA: w", b"A: b\x00c", b"A: b\rc", b"A: b\nc", b"A: b\x0bc",
+                  b"A: b\x7fc", b"A(: v", b"A B: v", b"Content-Length : 5", b"Transfer-Encoding\t: chunked"]
+        for b_ in range(256):
+            c = bytes([b_])
+            if b_ in (0x0d, 0x0a):
+                continue
+            blocks += [b"X" + c + b"A: v", b"XA" + c + b": v", b"XA: a" + c + b"b", c + b"XA: v", b"XA: v" + c, b"XA:" + c + b"v"]
+        blocks += [b"XA: a\rb", b"XA: a\nb", b"X\rA: v", b"X\nA: v", b"XA: v\r", b"XA: v\n"]
+        cases = [(b, {}) for b in blocks]
+        # the same grammar applies when the block is a trailer section
+        cases += [(b, {"from_trailer": True}) for b in blocks[:40]]
+    elif part == "switches":
+        blocks = [b"A : v", b"A\t : v", b"A \t: v\r\nB: w", b" A: v", b"A B : v", b"A: b\r\n c", b"A: b\r\n c\r\n\td\r\nB: w", b"A: b\r\n c\x00", b"X_A: v", b"X_A: v\r\nB: w", b"SCRIPT_NAME: /s",
+                  b"X-A: v", b"A_: v", b"_: v"]
+        for ov in ({}, {"strip_header_spaces": True}, {"permit_obsolete_folding": True}, {"header_map": "refuse"}, {"header_map": "dangerous"}, {"header_map": "drop", "peer": ("10.0.0.9", 1)},
+                   {"header_map": "refuse", "peer": ("10.0.0.9", 1)}, {"strip_header_spaces": True, "permit_obsolete_folding": True, "header_map": "dangerous"}):
+            cases += [(b, ov) for b in blocks]
+    elif part == "trust":
+        blocks = [b"X-Forwarded-Proto: https", b"X-Forwarded-Proto: http", b"X-Forwarded-Proto: https\r\nX-Forwarded-Ssl: on", b"X-Forwarded-Proto: https\r\nX-Forwarded-Ssl: off",
+                  b"X-Forwarded-Proto: http\r\nX-Forwarded-Proto: https", b"X-Forwarded-Proto: https\r\nX-Forwarded-Proto: https", b"X-Forwarded-Ssl: on\r\nHost: x", b"SCRIPT_NAME: /s\r\nHost: x",
+                  b"PATH_INFO: /p", b"X_OTHER: 1\r\nHost: x", b"Host: x"]
+        for ov in ({}, {"peer": ("10.0.0.9", 1)}, {"peer": ""}, {"forwarded_allow_ips": ("*",), "peer": ("10.0.0.9", 1)}, {"from_trailer": True}, {"forwarder_headers": ("*",)},
+                   {"forwarder_headers": ("*",), "peer": ("10.0.0.9", 1)}, {"forwarded_allow_ips": (), "peer": ("127.0.0.1", 5)}, {"header_map": "refuse", "peer": ("10.0.0.9", 1)}, {"scheme": "https", "peer": ("10.0.0.9", 1)}):
+            cases += [(b, ov) for b in blocks]
+    elif part == "limits":
+        long = b"X-Pad: " + b"a" * 30
+        for ov, blocks in (({"limit_request_fields": 2}, [b"A: 1", b"A: 1\r\nB: 2", b"A: 1\r\nB: 2\r\nC: 3", b"X_A: 1\r\nX_B: 2\r\nC: 3", b"A: 1\r\nB: 2\r\n"]),
+                           ({"limit_request_field_size": 30}, [b"X-Pad: " + b"a" * 20, b"X-Pad: " + b"a" * 21, b"X-Pad: " + b"a" * 22, long, b"X_Pad: " + b"a" * 30, b"X_Pad: " + b"a" * 20,
+                                                              b"X-Forwarded-Proto: " + b"h" * 30, b"A: b\r\n " + b"c" * 30]),
+                           ({"limit_request_field_size": 30, "permit_obsolete_folding": True}, [b"A: b\r\n " + b"c" * 10, b"A: b\r\n " + b"c" * 19, b"A: b\r\n " + b"c" * 20, b"A: b\r\n " + b"c" * 8 + b"\r\n " + b"d" * 8,
+                                                                                               b"A: b\r\n " + b"c" * 8 + b"\r\n " + b"d" * 20]),
+                           ({"limit_request_field_size": 30, "header_map": "refuse"}, [b"X_Pad: " + b"a" * 30]),
+                           ({"limit_request_field_size": 0}, [b"X-Pad: " + b"a" * 9000]),
+                           ({"limit_request_field_size": 30, "peer": ("10.0.0.9", 1)}, [b"X-Forwarded-Proto: " + b"h" * 30, b"SCRIPT_NAME: /" + b"s" * 30])):
+            cases += [(b, ov) for b in blocks]
+    rows = []
+    for data, ov in cases:
+        cfg = dict(base)
+        cfg.update(ov)
+        env = {DATA: data, "self.cfg.forwarded_allow_ips": cfg["forwarded_allow_ips"], "self.cfg.secure_scheme_headers": cfg["secure_scheme_headers"],
+               "self.cfg.forwarder_headers": cfg["forwarder_headers"], "self.cfg.strip_header_spaces": cfg["strip_header_spaces"], "self.cfg.permit_obsolete_folding": cfg["permit_obsolete_folding"],
+               "self.cfg.header_map": cfg["header_map"], "self.limit_request_fields": cfg["limit_request_fields"], "self.limit_request_field_size": cfg["limit_request_field_size"],
+               "self.peer_addr": cfg["peer"], "self.scheme": cfg["scheme"]}
+        if FT:
+            env[FT] = cfg["from_trailer"]
+        outs = Explorer(f, tracked=["self.scheme"], max_states=200000).run(g.entry, env)
+        got = set()
+        for o in outs:
+            if o.kind == "raise":
+                got.add("reject")
+            elif o.kind == "return":
+                d = o.detail
+                got.add((tuple(d) if isinstance(d, (tuple, list)) else "U", o.env.get("self.scheme")))
+            else:
+                got.add(o.kind)
+        want = headers_oracle(data, cfg)
+        okrow = got == {want}
+        if len(rows) < 25 or not okrow:
+            rows.append({"block": repr(data[:70]), "settings": {k: v for k, v in ov.items()}, "outcome": sorted(map(str, got))[:3], "required": str(want)[:200]})
+        ctx.check(rid, okrow, key(f, "headers|%s|%r|%s" % (part, data[:60], sorted(ov.items()))), site(f, text="header block %r with %s" % (data[:70], ov or "default settings")),
+                  "header block %r under %s gives %s, required %s" % (data[:70], ov or "default settings", sorted(map(str, got))[:3], str(want)[:240]), "-> %s" % (str(want)[:120],))
+    ctx.table("%s header blocks / %s (sample)" % (rid, part), rows[:50])
 
 
 def request_line_table(ctx, rid, configs=((False, False, False),), fields=False, enumerate_bytes=True):
@@ -861,38 +946,9 @@ def r6(ctx):
         okd = (d in spec.HEADER_MAP_SAFE) if name == "header_map" else (d == safe)
         ctx.check("C01.R6", okd, "default|" + name, "gunicorn/config.py: Setting %s" % name,
                   "default of documented-unsafe switch %s is %r (safe value: %r)" % (name, d, safe), "default %r is safe" % (d,))
-    # (ii) every read of a switch in the http package is a branch condition
-    reads = 0
-    for mn in HTTP_MODULES:
-        for f in repo.module(mn).all_funcs:
-            for n in walk_own(f.node):
-                nm = cfg_attr(n)
-                if nm in spec.UNSAFE_SWITCHES:
-                    reads += 1
-                    tn = [x for x in f.cfg.nodes_containing(n) if x.kind == "test"]
-                    ctx.check("C01.R6", bool(tn), key(f, "switch-read|" + nm), site(f, n),
-                              "cfg.%s is read but does not control a branch" % nm, "read as a branch condition")
-    ctx.floor("C01.R6", "reads of unsafe switches", reads, 4)
-    # (iii) specific relaxed statements are control dependent on their switch
-    f = repo.func(MSG + ".Message.parse_headers")
-    g = f.cfg
-
-    def flag(nm):
-        def recog(e):
-            return -1 if cfg_attr(e) == nm else None
-        return recog
-    # strip of the field *name* only under strip_header_spaces
-    name_strips = []
-    for c in method_calls(f, ("strip", "rstrip", "lstrip")):
-        recv = c.func.value
-        # receiver is the name half of the `name, value = curr.split(":", 1)` pair
-        if isinstance(recv, ast.Name) and _is_name_half(f, recv.id):
-            name_strips.append(c)
-    for c in name_strips:
-        p, hits = guard_check(f, nodes_with(f, c), flag("strip_header_spaces"))
-        ctx.check("C01.R6", p is None, key(f, norm(c)), site(f, c),
-                  "whitespace between field name and colon is stripped without cfg.strip_header_spaces (RFC 9112 5.1 requires rejection)",
-                  "only under strip_header_spaces", path=p and g.fmt_path(p))
+    # (ii) the relaxations of the header grammar happen only under their switch: evaluated (header blocks that need
+    # strip_header_spaces / permit_obsolete_folding / a header_map mode, under every setting of those switches)
+    headers_table(ctx, "C01.R6", "switches")
     # the request-line relaxations (unconventional method / version, case folding) only under their switches: evaluated
     request_line_table(ctx, "C01.R6", configs=((True, False, False), (False, True, False), (False, False, True), (True, True, True)), enumerate_bytes=False)
 
